@@ -188,7 +188,10 @@ func (c *Checker) plans() []runPlan {
 			{Build: BuildCfg{Corpus: corp, Race: true, Knobs: map[string]string{"mapStructDescBuckets": "0xf"}}, Runs: 2, Label: "race+buckets=0xf"},
 			{Build: BuildCfg{Corpus: corp, Race: true, Knobs: map[string]string{"mapStructDescBuckets": "0"}}, Runs: 1, Label: "race+buckets=0"},
 			{Build: BuildCfg{Corpus: corp}, Runs: 6, Label: "plain"},
-			{Build: BuildCfg{Corpus: corp, Knobs: map[string]string{"mapStructDescBuckets": "0"}}, Runs: 4, Label: "plain+buckets=0"},
+			{Build: BuildCfg{Corpus: corp, Knobs: map[string]string{"mapStructDescBuckets": "0"}}, Runs: 3, Label: "plain+buckets=0"},
+			// statement-granularity yields: a switch may fall between any two statements (e.g. between reading and
+			// advancing a shared cursor), not only at function/loop heads and sync operations
+			{Build: BuildCfg{Corpus: corp, Stmt: true}, Runs: 2, Label: "plain+stmt-yields"},
 		}
 	case "C16":
 		return []runPlan{
@@ -202,12 +205,13 @@ func (c *Checker) plans() []runPlan {
 		}
 		// race build: a legacy control that touches codec state while other tasks use the codec shows up as a race
 		// with a legacy entry point on one of the two stacks
-		ps = append(ps, runPlan{Build: BuildCfg{Corpus: corp, Race: true}, Env: validEnvs[2], Runs: 2, Label: "race+env2"})
+		ps = append(ps, runPlan{Build: BuildCfg{Corpus: corp, Race: true}, Env: validEnvs[2], Runs: 5, Label: "race+env2"})
 		return ps
 	case "C06":
 		return []runPlan{
 			{Build: BuildCfg{Corpus: corp}, Runs: 6, Label: "plain"},
 			{Build: BuildCfg{Corpus: corp, Knobs: map[string]string{"defaultDecoderMemSize": "256"}}, Runs: 2, Label: "plain+block=256"},
+			{Build: BuildCfg{Corpus: corp, Stmt: true}, Runs: 2, Label: "plain+stmt-yields"},
 		}
 	}
 	return []runPlan{{Build: BuildCfg{Corpus: corp}, Runs: 8, Label: "plain"}}
@@ -349,6 +353,7 @@ func runCheck(prop, tier string, seed uint64, budget time.Duration, maxRuns int)
 	sort.Strings(sigs)
 	exit := 0
 	reported := 0
+	unreproduced := 0
 	knownSeen := map[string]bool{}
 	for _, s := range sigs {
 		v := sigSeen[s]
@@ -359,13 +364,18 @@ func runCheck(prop, tier string, seed uint64, budget time.Duration, maxRuns int)
 			}
 			continue
 		}
-		exit = 1
 		if reported >= 3 {
+			exit = 1
 			fmt.Printf("further violation (not minimised): %s x%d\n", s, sigCount[s])
 			continue
 		}
-		reported++
 		path := c.reportViolation(v, sigCount[s])
+		if path == "" {
+			unreproduced++
+			continue
+		}
+		reported++
+		exit = 1
 		fmt.Printf("VIOLATION property=%s replay=%s\n", v.Prop, path)
 	}
 	for i, n := range c.notes {
@@ -610,6 +620,20 @@ func (c *Checker) reportViolation(v *Violation, seen int) string {
 	for i := 0; i < 3; i++ {
 		if c.hasSig(evalOpts{Build: b, Spec: &spec, Env: v.Env}, v.Sig) {
 			ok++
+		}
+	}
+	if ok == 0 {
+		// neither the minimised nor the original specification shows it again: one seed is one execution here, so
+		// what does not replay at all was the environment (e.g. the wall-clock watchdog on an overloaded machine)
+		spec = *v.Spec
+		for i := 0; i < 2 && ok == 0; i++ {
+			if c.hasSig(evalOpts{Build: b, Spec: &spec, Env: v.Env}, v.Sig) {
+				ok++
+			}
+		}
+		if ok == 0 {
+			fmt.Printf("NOT REPRODUCED: %s was observed once and does not occur in 5 replays of the same specification; not reported as a violation\n%s\n", v.Sig, tail(v.Msg, 600))
+			return ""
 		}
 	}
 	rf := ReplayFile{V: 1, Property: v.Prop, Signature: v.Sig, Message: v.Msg, Kind: v.Kind, VerifSeed: c.Seed, Build: v.Build, Env: v.Env, Spec: &spec,
